@@ -20,7 +20,7 @@ from ..gen import c11_gen as GEN
 
 PID = "C11"
 COQ_HEADER = ("From Coq Require Import List NArith ZArith.\nImport ListNotations.\n"
-              "From SK Require Import lib.Tok lib.LGraph model.C11_Model model.C11_State model.C11_Partial model.C11_Keys model.C11_Attr model.C11_Orbit model.C11_Order model.C11_SigObs model.C11_Views model.C11_AttrFull model.C11_State2.\nLocal Open Scope N_scope.\n")
+              "From SK Require Import lib.Tok lib.LGraph model.C11_Model model.C11_State model.C11_Partial model.C11_Keys model.C11_Attr model.C11_Orbit model.C11_Order model.C11_SigObs model.C11_Views model.C11_AttrFull model.C11_State2 model.C11_Attr3.\nLocal Open Scope N_scope.\n")
 SHARD = 100
 IMPL_TIMEOUT = 300      # the stage takes 7 s on 16 idle cores (40 CPU-s); a lost pool worker ends it after this bound, not later
 COQ_TIMEOUT = 300       # per shard of 100 cases (8 CPU-s at most since the cases are dealt round-robin)
@@ -41,7 +41,7 @@ EXPLANATION = ("Exhaustive sub-space (both tiers): every labelled graph up to is
                "Everything else is seeded random / "
                "corpus sampling.  Theorems (coq/props/C11.v, all closed under the global context): C11_vocabulary, C11_aut_count, C11_aut_group, "
                "C11_vf2_contract, C11_vf2_contract_items, C11_orbits_exact, C11_orbits_partition, C11_components, C11_anchors, C11_object_state, C11_wl_never_splits, C11_wl_partition, C11_wfb_sound, "
-               "C11_dedup_sublist, C11_dedup_first_of_class, C11_dedup_idempotent, C11_partial_prune, C11_partial_prune_hosts, C11_prune_complete, C11_rep_ok, C11_prune_complete_aut, C11_prune_first_of_class, C11_prune_same_results, C11_configured_labels_only, C11_key_options, C11_rule_labels, C11_orbit_accuracy, C11_aut_observable, C11_wl_never_splits_reported, C11_orbit_accuracy_all, C11_orbit_order, C11_views, C11_dedup_singletons_sound, C11_dedup_orbit_sets_merge_unrelated, C11_orbits_no_swaps, C11_count_no_swaps, C11_repr_numeral, C11_reported_order_canonical, C11_prune_attr, C11_wl_sweeps, C11_aut_observable_attr, C11_dedup_subset_safe, C11_est_index_state.")
+               "C11_dedup_sublist, C11_dedup_first_of_class, C11_dedup_idempotent, C11_partial_prune, C11_partial_prune_hosts, C11_prune_complete, C11_rep_ok, C11_prune_complete_aut, C11_prune_first_of_class, C11_prune_same_results, C11_configured_labels_only, C11_key_options, C11_rule_labels, C11_orbit_accuracy, C11_aut_observable, C11_wl_never_splits_reported, C11_orbit_accuracy_all, C11_orbit_order, C11_views, C11_dedup_singletons_sound, C11_dedup_orbit_sets_merge_unrelated, C11_orbits_no_swaps, C11_count_no_swaps, C11_repr_numeral, C11_reported_order_canonical, C11_prune_attr, C11_wl_sweeps, C11_aut_observable_attr, C11_dedup_subset_safe, C11_est_index_state, C11_three_views.")
 TRUSTED_BASE = [
     "Coq 8.16.1 kernel + vm_compute (no native_compute)",
     "hand-written model coq/model/C11_Model.v tied to synkit/Graph/Matcher/{automorphism,auto_est,dedup_matches}.py and the pruning call of "
@@ -50,9 +50,8 @@ TRUSTED_BASE = [
     "enumerated maps and the set of their (node, image) pairs; C11_vf2_contract(_items) show that any duplicate-free listing of exactly the "
     "label-preserving automorphisms (maps as dictionaries, item order free) gives the same analysis; that VF2 is such a listing is monitored on every case (count, orbit sets, number "
     "of rule automorphisms) and independently against a brute-force Python enumerator in the oracle",
-    "harness encoders harness/props/C11.py (aut / keys / prune cases: attribute keys and values coded injectively, selection / defaults / "
-    "tuple building in the model; dedup patterns and hosts: attribute tuples interned injectively to N in Python; dict order shipped as list "
-    "order); the theorems' "
+    "harness encoders harness/props/C11.py (attribute keys and values coded injectively, equal codes iff Python ==; selection of keys, "
+    "defaults and label building happen in the model for every case; dict order shipped as list order); the theorems' "
     "premise wf (distinct node ids, edges between distinct listed nodes, one entry per unordered pair) is computed by the model function wfb "
     "on every encoded graph and compared with True",
     "C11_prune_same_results is stated for any result function that depends only on the item set of a match and is invariant under rule "
@@ -66,9 +65,9 @@ TESTED_NOT_PROVED = ["end-to-end: set of standardised reactions and of ITS hashe
                      "the proved half is: every raw match differs from a kept match by a rule automorphism)",
                      "whole-molecule templates (reaction-centre graph above the enumerator budget, about 17+ atoms) are outside the model's "
                      "evaluated domain: for them only the oracle runs (counted under outside_model_domain)",
-                     "the dedup cases (pattern, host) and the object histories hand the model one interned label per node and edge (Python "
-                     "projection _coq_graph); every aut / keys / history-step / prune case and the dedup skip configurations evaluate the key "
-                     "options, the defaults of absent attributes and the labels from the attribute dictionaries inside the model"]
+                     "every graph reaches the model as attribute dictionaries (key / value codes); key options, defaults of absent attributes and "
+                     "all labels are computed inside the model (to_graph, to_rule_graph, to_graph3) - what is tested, not proved, about them is only "
+                     "that the codes are equal exactly when the Python values are =="]
 LEVEL_TEXT = ("Machine-checked proof (Coq, all inputs) over an executable model of Automorphism, AutoEst, both match de-duplicators and the pruning "
               "step of SynReactor.mappings(): the enumeration is a duplicate-free list of exactly the label-preserving automorphisms, which form a "
               "group; the reported count is its length (product over components for disconnected graphs, component swaps excluded as the code "
@@ -166,17 +165,10 @@ def _elab(a, keys):
     return tuple(_jv(a.get(k, 1.0)) for k in keys)
 
 
-def _coq_graph(g, nk=None, ek=None):
-    """lgraph (N*N*N) (N*N): node label (exact-analysis label, WL label, full label); edge label (order code, full code).
-    Order codes are monotone in the order value (AutoEst sorts neighbour signatures)."""
-    ia, iw, ifl, ie, iek = GG.Intern(), GG.Intern(), GG.Intern(), GG.Intern(), GG.Intern()
-    orders = sorted({GG.half(_order(a)) for _, _, a in g["edges"]})
-    return GG.coq_lgraph(
-        g,
-        lambda n, a: "(%s, %s, %s)" % (cN(ia(_lab_keys(a, nk) if nk is None or nk == ["element", "charge"] else json.dumps(_nlab(a, nk), default=str))),
-                                       cN(iw(_lab_w(a))), cN(ifl(_lab_f(a)))),
-        lambda u, v, a: "(%s, %s)" % (cN(orders.index(GG.half(_order(a)))) if ek is None or ek == ["order"]
-                                      else cN(iek(json.dumps(_elab(a, ek), default=str))), cN(ie(_lab_e(a)))))
+def _coq_graph(g):
+    """the graph with the three node labels / two edge labels of C11_Model, built INSIDE the model from the attribute
+    dictionaries (C11_Attr3.to_graph3; until round 5 this projection was done here in Python)"""
+    return "(to_graph3 %s)" % _coq_agraph(g)[0]
 
 
 def _coq_maps(ms):
